@@ -215,6 +215,7 @@ def run_feature(cell, rec, seed):
             nss.append(1.0 + a)
             oks.append(ok)
         if all(oks):
+            rec.count("feature_judged")
             got = lc.call(rec, "integrate_log_conditional",
                           lambda: c.integrate_log_conditional(q), info)
             if got is not None:
